@@ -63,7 +63,15 @@ func caseTagCompiler(node render.BlockNode) (func(io.Writer, render.Context) err
 		if err != nil {
 			return err
 		}
+		// the first when clause that lists the subject wins; an else clause is the fallback wherever it stands
+		var otherwise caseInterpreter
 		for _, clause := range cases {
+			if _, isElse := clause.(elseCase); isElse {
+				if otherwise == nil {
+					otherwise = clause
+				}
+				continue
+			}
 			b, err := clause.test(sel, ctx)
 			if err != nil {
 				return parser.WrapError(err, clause.body())
@@ -71,6 +79,9 @@ func caseTagCompiler(node render.BlockNode) (func(io.Writer, render.Context) err
 			if b {
 				return ctx.RenderBlock(w, clause.body())
 			}
+		}
+		if otherwise != nil {
+			return ctx.RenderBlock(w, otherwise.body())
 		}
 		return nil
 	}, nil
